@@ -202,6 +202,9 @@ def run_tlc(module, cfg, workers=None, simulate=None, depth=None, seed=None, env
     m = re.search(r"Error: Invariant (\S+) is violated", p.stdout)
     if m:
         r.violated = m.group(1)
+    m = re.search(r"Error: The invariant of (\S+) is equal to FALSE", p.stdout)
+    if m and not r.violated:
+        r.violated = m.group(1)
     m2 = re.search(r"Error: (Action property|Temporal properties|Assumption)[^\n]*", p.stdout)
     if not r.violated and m2:
         r.violated = m2.group(0)
@@ -215,6 +218,9 @@ def run_tlc(module, cfg, workers=None, simulate=None, depth=None, seed=None, env
     if not r.ok and r.violated is None:
         r.error = p.stdout[-4000:] + p.stderr[-2000:]
         raise MachineryError("TLC failed on %s/%s:\n%s" % (module, cfg, r.error))
+    if expect_violation is None:
+        log("[tlc] %s/%s: %d generated, %d distinct, %s in %.1fs" % (module, cfg, r.generated, r.distinct, "violated " + str(r.violated) if r.violated else "ok", r.wall))
+        return r
     if r.violated and not expect_violation:
         raise MachineryError("specification %s/%s violates its own property %s -- the model is wrong, not the code:\n%s"
                              % (module, cfg, r.violated, p.stdout[-6000:]))
